@@ -1098,16 +1098,19 @@ def _target_names(t: ast.expr, index: int | None, is_prod: bool = True) -> list[
 
 
 def _none_narrowing(test: ast.expr) -> tuple[str, bool] | None:
-    """``v is None`` -> (v, True); ``v is not None`` -> (v, False); ``not v``/``v`` likewise."""
-    if isinstance(test, ast.Compare) and len(test.ops) == 1 and isinstance(test.left, ast.Name) and isinstance(test.comparators[0], ast.Constant) and test.comparators[0].value is None:
-        if isinstance(test.ops[0], ast.Is):
-            return test.left.id, True
-        if isinstance(test.ops[0], ast.IsNot):
-            return test.left.id, False
+    """``v is None`` -> (v, True); ``v is not None`` -> (v, False); ``v`` -> (v, False); ``not <t>`` flips <t>."""
+    if isinstance(test, ast.UnaryOp) and isinstance(test.op, ast.Not):
+        inner = _none_narrowing(test.operand)
+        return (inner[0], not inner[1]) if inner is not None else None
+    if isinstance(test, ast.Compare) and len(test.ops) == 1 and isinstance(test.comparators[0], ast.Constant) and test.comparators[0].value is None:
+        left = test.left.target if isinstance(test.left, ast.NamedExpr) else test.left
+        if isinstance(left, ast.Name):
+            if isinstance(test.ops[0], (ast.Is, ast.Eq)):
+                return left.id, True
+            if isinstance(test.ops[0], (ast.IsNot, ast.NotEq)):
+                return left.id, False
     if isinstance(test, ast.Name):
         return test.id, False
-    if isinstance(test, ast.UnaryOp) and isinstance(test.op, ast.Not) and isinstance(test.operand, ast.Name):
-        return test.operand.id, True
     return None
 
 
